@@ -9,6 +9,7 @@ package zz_verifrt
 import (
 	"archive/zip"
 	"fmt"
+	"hash/crc32"
 	"io/fs"
 	"os"
 	"path/filepath"
@@ -113,6 +114,20 @@ func ZipMaterialize(path string) {
 	defer f.Close()
 	zw := zip.NewWriter(f)
 	for _, n := range zipNames {
+		switch zipDamage[n] {
+		case 1: // the header announces two bytes, one is there
+			w, err := zw.CreateRaw(&zip.FileHeader{Name: n, Method: zip.Store, CompressedSize64: 1, UncompressedSize64: 2, CRC32: crc32.ChecksumIEEE([]byte("xy"))})
+			if err == nil {
+				_, _ = w.Write([]byte("x"))
+			}
+			continue
+		case 2: // wrong checksum
+			w, err := zw.CreateRaw(&zip.FileHeader{Name: n, Method: zip.Store, CompressedSize64: 1, UncompressedSize64: 1, CRC32: 12345})
+			if err == nil {
+				_, _ = w.Write([]byte("x"))
+			}
+			continue
+		}
 		w, err := zw.CreateHeader(&zip.FileHeader{Name: n, Method: zip.Store})
 		if err == nil && !strings.HasSuffix(n, "/") {
 			_, _ = w.Write([]byte("x"))
